@@ -126,3 +126,25 @@ prop("C12", quick={"runs": 6000}, thorough={"runs": 100000000, "budget_s": 600},
      rules=["C12.R1 no trigger -> nothing removed", "C12.R2 amount (fraction / down to CountSoftLimit*(1-f) within one entry)",
             "C12.R3 max rank(removed) <= min rank(kept) under the strategy, ranks from the harness access log", "C12.R4 cache_evict equals entries removed"],
      probes=["cycle_without_trigger", "cycle_count_breach", "cycle_eviction_needed", "order_checked"])
+prop("C08", quick={"runs": 40000}, thorough={"runs": 100000000, "budget_s": 600},
+     rule=BE_RULE + "2-16 client tasks issue 1-5 operations each over <= 4 keys (partly constructed hash collisions); in half of the runs the real "
+     "janitor runs cleanup/eviction cycles concurrently. Histories (invoke/return event sequence numbers, batch operations expanded into one "
+     "pseudo-operation per key) are checked with porcupine against a nondeterministic per-key model. Non-trivial: two operations of different "
+     "clients touching the same key (or a batch / janitor cycle) overlapped; distinct = distinct (scenario, schedule signature).",
+     rules=["C08.R1 porcupine: Illegal is a violation, Unknown is inconclusive and never reported", "C08.R2 Walk reports only stored entries and visits every unchanged entry exactly once"],
+     probes=["read_overlapping_write", "delete_overlapping_write", "read_overlapping_delete", "janitor_cycle_overlapping_write", "walk_checked", "walk_unchanged_entry_checked"])
+prop("C09", quick={"runs": 12000}, thorough={"runs": 100000000, "budget_s": 600},
+     rule="Half of the runs: sequences of backend operations over families of 2-4 constructed xxhash64 collisions (64-byte keys, asserted with the "
+     "real xxhash.Sum64) plus ordinary keys on all three backends, key buffers overwritten right after each call, checked against a lossy reference "
+     "map (a colliding write may cost a miss, never a foreign value). Quarter: Failover runs in which callers overwrite / reuse key buffers while "
+     "background builds are pending (the overwrite is a simulated step placed anywhere after the return). Quarter: Failover over colliding keys with "
+     "failing builds (backend and failure cache are hash-keyed), provenance oracle. Non-trivial: >= 2 operations / pending background build / colliding keys.",
+     rules=["C09.<op> lossy reference map (read/load/delete/walk/len)", "C09.R1-* provenance through Failover over colliding keys",
+            "C09.R4 background build writes to and unlocks the original key; no second concurrent build after a foreign unlock"],
+     probes=["write_to_colliding_key", "key_buffer_rewritten_after_backend_call", "key_overwritten_while_background_build_pending", "failover_over_colliding_keys"])
+prop("C18", quick={"runs": 12000}, thorough={"runs": 100000000, "budget_s": 600},
+     rule="Half of the runs: Failover workloads (as C02, faults in a quarter) with the harness stats tracker attached, frontend 'fo' and backend 'be' "
+     "named differently; other half: backend workloads (sequential with ExpireAll/DeleteAll, concurrent without). At quiescence the metric sums are "
+     "compared with the harness's own event log. Non-trivial: at least one operation.",
+     rules=["C18.build / failed / refreshed (frontend)", "C18.write / delete / reads (hit+miss+expired = non-skipped reads + entries touched by ExpireAll)"],
+     probes=["refresh_counted", "failed_build_counted", "expireAll_counted", "deleteAll_counted"])
